@@ -19,8 +19,8 @@ execution of the engine model:
   an engine artefact), wrapped iff it is an `Exception`;
 * `C01_plain_cancelled_only_on_request`: `CancelledError` comes out only if the caller was cancelled;
 * `C01_plain_values_agree`, `C01_plain_value_excludes_failure`: two executions of the same pipeline — whatever
-  their schedules — cannot return different values, nor one a value and the other an error (the fact of failure
-  is schedule-independent; *which* root cause is reported when several nodes fail independently is not, and
+  their schedules — cannot return different values, nor one a value and the other an error (with collaborators that do not raise, the fact
+  of failure is schedule-independent; *which* root cause is reported when several nodes fail independently is not, and
   the theorem says it is always one of them);
 * `solution_exists`: the equations have a solution for every acyclic pipeline, so the statements are not vacuous;
 * in every state of a pending run every stored result is the solution's value (`C01_plain_results_agree`) — this is
@@ -53,20 +53,23 @@ theorem C01_plain_value (P : Program) (d : DagRef) (val : Node → Option Val) (
   C01_plain_outcome P d val hp s h hpending c hor s' obs hs _ ho hsol
 
 /-- **C01 / C05 (plain): a reported error is the failure of a node of the pipeline** under the retry / default
-policy, on the dataflow values of its sources -/
+policy, on the dataflow values of its sources — or the exception a collaborator (event manager, artifact store) raised -/
 theorem C01_plain_error (P : Program) (d : DagRef) (val : Node → Option Val) (hp : PlainP P d)
     (hsol : Solution P d val) (s : St) (h : Live P s) (hpending : s.outcome = none) (c : Choice)
     (hor : OracleOK P s c) (s' : St) (obs : List Obs) (hs : step P s c = some (s', obs)) (e : Exc)
-    (ho : s'.outcome = some (.error e)) : e.isException = true ∧ ∃ n ∈ d.nodes, NodeFails P val n e := by
+    (ho : s'.outcome = some (.error e)) : e.isException = true ∧ FailCause P d val e := by
   have := C01_plain_outcome P d val hp s h hpending c hor s' obs hs _ ho
   exact ⟨this.1, this.2 hsol⟩
 
+/-- an exception that leaves `chart.run`: a collaborator's, or a node's `BaseException` outside `Exception` -/
 theorem C01_plain_raised (P : Program) (d : DagRef) (val : Node → Option Val) (hp : PlainP P d)
     (hsol : Solution P d val) (s : St) (h : Live P s) (hpending : s.outcome = none) (c : Choice)
     (hor : OracleOK P s c) (s' : St) (obs : List Obs) (hs : step P s c = some (s', obs)) (e : Exc)
-    (ho : s'.outcome = some (.raised e)) : e.isException = false ∧ ∃ n ∈ d.nodes, NodeFails P val n e := by
-  have := C01_plain_outcome P d val hp s h hpending c hor s' obs hs _ ho
-  exact ⟨this.1, this.2 hsol⟩
+    (ho : s'.outcome = some (.raised e)) :
+    CollabFails P e ∨ (e.isException = false ∧ FailCause P d val e) := by
+  rcases C01_plain_outcome P d val hp s h hpending c hor s' obs hs _ ho with h1 | ⟨h1, h2⟩
+  · exact Or.inl h1
+  · exact Or.inr ⟨h1, h2 hsol⟩
 
 theorem C01_plain_cancelled_only_on_request (P : Program) (d : DagRef) (hp : PlainP P d) (s : St)
     (h : Live P s) (hpending : s.outcome = none) (c : Choice) (hor : OracleOK P s c) (s' : St) (obs : List Obs)
@@ -99,7 +102,8 @@ theorem C01_plain_values_agree (P : Program) (d : DagRef) (val : Node → Option
 through), no execution of the same pipeline returns a value.  `ord` is any topological order of the DAG (acyclicity);
 `FeedsOutput`: every node of the DAG feeds the output (that is how the DAG is cut out of the graph) -/
 theorem C01_plain_value_excludes_failure (P : Program) (d : DagRef) (val : Node → Option Val) (hp : PlainP P d)
-    (hsol : Solution P d val) (ord : List Node) (ht : TopoOrd P d ord) (hfo : FeedsOutput P d)
+    (hsol : Solution P d val) (hnr : ∀ e, ¬ CollabFails P e) (ord : List Node) (ht : TopoOrd P d ord)
+    (hfo : FeedsOutput P d)
     (s₁ : St) (h₁ : Live P s₁) (hp₁ : s₁.outcome = none) (c₁ : Choice) (ho₁ : OracleOK P s₁ c₁) (s₁' : St)
     (obs₁ : List Obs) (hs₁ : step P s₁ c₁ = some (s₁', obs₁)) (v₁ : Val) (hv₁ : s₁'.outcome = some (.value v₁))
     (s₂ : St) (h₂ : Live P s₂) (hp₂ : s₂.outcome = none) (c₂ : Choice) (ho₂ : OracleOK P s₂ c₂) (s₂' : St)
@@ -108,8 +112,13 @@ theorem C01_plain_value_excludes_failure (P : Program) (d : DagRef) (val : Node 
   have a := C01_plain_value P d val hp hsol s₁ h₁ hp₁ c₁ ho₁ s₁' obs₁ hs₁ v₁ hv₁
   have hfail : ∃ n ∈ d.nodes, NodeFails P val n e := by
     rcases he₂ with he | he
-    · exact (C01_plain_error P d val hp hsol s₂ h₂ hp₂ c₂ ho₂ s₂' obs₂ hs₂ e he).2
-    · exact (C01_plain_raised P d val hp hsol s₂ h₂ hp₂ c₂ ho₂ s₂' obs₂ hs₂ e he).2
+    · rcases (C01_plain_error P d val hp hsol s₂ h₂ hp₂ c₂ ho₂ s₂' obs₂ hs₂ e he).2 with h1 | h1
+      · exact h1
+      · exact absurd h1 (hnr e)
+    · rcases C01_plain_raised P d val hp hsol s₂ h₂ hp₂ c₂ ho₂ s₂' obs₂ hs₂ e he with h1 | ⟨_, h1 | h1⟩
+      · exact absurd h1 (hnr e)
+      · exact h1
+      · exact absurd h1 (hnr e)
   obtain ⟨n, hn, hnf⟩ := hfail
   have := val_none_propagates hsol ht hfo hp.outIn _ n hn (Nat.le_refl _) (hnf.val_none hsol hn)
   rw [a] at this; cases this
